@@ -51,6 +51,34 @@ def run(ctx):
                             src = "set f to transform return %s end\nreplace all 'a' with f" % e
                         cases.append({"src": src, "texts": ["a"]})
                         meta.append(("cell", (op, lk, rk), exp is not None))
+    # nested expressions: an ill-typed sub-expression anywhere must make the whole rejected
+    LEAVES = [("'ab'", "s"), ("match", "s"), ("3", "n"), ("matchLength", "n"), ("true", "b"), ("false", "b"), ("nosuch", "s")]
+    def gen_typed(d):
+        if d == 0 or rng.random() < 0.2:
+            return rng.choice(LEAVES)
+        if rng.random() < 0.15:
+            u = rng.choice(["not", "head", "tail"])
+            e, t = gen_typed(d - 1)
+            rt = None if t is None else ({"not": "b"}.get(u, "s") if t == {"not": "b", "head": "s", "tail": "s"}[u] else None)
+            return ("%s (%s)" % (u, e), rt)
+        op = rng.choice(list(OPS))
+        (le, lt), (re_, rt_) = gen_typed(d - 1), gen_typed(d - 1)
+        if lt is None or rt_ is None:
+            t = None
+        else:
+            x = doc_table(op, REP[lt], REP[rt_])
+            t = None if x is None else ("n" if x == "div0" else x[0])
+        return ("(%s) %s (%s)" % (le, op, re_), t)
+    for _ in range(600 if quick else 8000):
+        e, t = gen_typed(rng.choice([2, 2, 3]))
+        if t == "b":
+            src = "set p to pattern 'a' begin return %s end\nfind all p" % e
+        elif t is None and rng.random() < 0.5:
+            src = "set p to pattern 'a' begin if %s then return true end return false end\nfind all p" % e
+        else:
+            src = "set f to transform return %s end\nreplace all 'a' with f" % e
+        cases.append({"src": src, "texts": ["a"]})
+        meta.append(("cell", ("nested", e), t is not None))
     for uop, okk in (("not", "b"), ("head", "s"), ("tail", "s")):
         for k in "snb":
             e = "%s (%s)" % (uop, EXPRS[k][0])
